@@ -193,18 +193,13 @@ def c15_limiter_oracle(line, res):
     rate, burst, v4, v6 = prop_defaults(f)
     dec = r["dec"] if r["dec"] != "-" else ""
     B = burst * S
-    # per key: [prop, last_t, like, collected]
-    #   prop = the property's bucket (never collected); like = the same bucket with the collector's known
-    #   behaviour (finding K3: an entry idle > 60 s is dropped and reborn full).  Both follow the
-    #   implementation's own decisions.  Admission beyond `like` is a violation; beyond `prop` only: K3.
+    # per key: [tokens, last_t] of the property's bucket, following the implementation's own decisions.  Collector
+    # runs are not part of the property: whatever the collector does, the window bound and the "own budget" clause
+    # must hold (they did not before the repair of finding K3: an idle entry was dropped and reborn full).
     st = {}
-    k3 = []
     i = 0
     for e in evs:
         if e[0] == "g":
-            for k, v in st.items():
-                if v[1] < e[1] - TTL:
-                    v[3] = True
             continue
         _, t, addr, n = e
         if i >= len(dec):
@@ -213,30 +208,25 @@ def c15_limiter_oracle(line, res):
         i += 1
         k = prop_key(addr, v4, v6)
         if k not in st:
-            st[k] = [B, t, B, False]
+            st[k] = [B, t]
         v = st[k]
         prop = min(B, v[0] + rate * (t - v[1]))
-        like = B if v[3] else min(B, v[2] + rate * (t - v[1]))
-        v[0], v[1], v[2], v[3] = prop, t, like, False
+        v[0], v[1] = prop, t
         if d == "1":
-            if n * S > like + rate + EPS:
-                return "window bound exceeded: subnet %s admitted cost %d at t=%d ns with only %.6f tokens (burst %d, rate %d)" % (
-                    k, n, t, like / S, burst, rate)
             if n * S > prop + rate + EPS:
-                k3.append("gc-rebirth: subnet %s admitted cost %d at t=%d ns with %.6f tokens in its bucket: an entry "
-                          "collected after >60 s idle is reborn full (burst %d > 60*rate %d)" % (k, n, t, prop / S, burst, rate))
+                return "window bound exceeded: subnet %s admitted cost %d at t=%d ns with only %.6f tokens (burst %d, rate %d)%s" % (
+                    k, n, t, prop / S, burst, rate, " [history with collector runs]" if any(x[0] == "g" for x in evs) else "")
             v[0] = prop - n * S
-            v[2] = like - n * S
         else:
             if n <= burst and prop - n * S >= EPS:
                 return "refused within budget: subnet %s refused cost %d at t=%d ns holding %.6f tokens (burst %d, rate %d)" % (
                     k, n, t, prop / S, burst, rate)
-    return k3[0] if k3 else None
+    return None
 
 
 def c15_limiter_compare(ir, mr):
     a, b = gens.fields(ir), gens.fields(mr)
-    if "dec" not in a or "dec" not in b or a.get("len") != b.get("len"):
+    if "dec" not in a or "dec" not in b or (b.get("len") != "?" and a.get("len") != b.get("len")):
         return False
     da, db = a["dec"], b["dec"]
     if len(da) != len(db):
@@ -512,7 +502,7 @@ def c15_config_gen(rng, tier):
         for a in others[:rng.choice([4, 8, len(others)])]:
             ops.append("a:0:%s:%d" % (a, rng.choice([1, 1, beff])))
         ops.append("a:0:%s:1" % noisy)
-        gc_p = 0.0 if beff > 60 * reff else rng.choice([0.0, 0.05])
+        gc_p = rng.choice([0.0, 0.05])
         ops += gen_history(rng, rng.choice([0, 6, 15, 30]), rate, beff, pool, gc_p, 0.0)
         out.append("c%d global=%d rate=%d burst=%d v4=%d v6=%d clock=virt addrs=%s ops=%s" % (
             i, glob, rate, burst, v4, v6, ",".join(pool), ",".join(ops)))
@@ -537,10 +527,7 @@ def c15_config_oracle(line, res):
         w = prop_key(a, v4, v6)
         if k != w:
             return "address %s is charged to %s, the property says %s (v4_mask=%s v6_mask=%s)" % (a, k, w, f["v4"], f["v6"])
-    o = c15_limiter_oracle(line, res)
-    if o and o.startswith("gc-rebirth"):
-        return None
-    return o
+    return c15_limiter_oracle(line, res)
 
 
 def c15_config_compare(ir, mr):
@@ -663,8 +650,8 @@ def c15_race_classify(line, res):
 
 C15_TRUST = ["C15: x/time/rate modelled as an exact integer-arithmetic token bucket (tokens scaled by 1e9); decisions within "
              "1e-6 token of the threshold are not compared (float64)",
-             "C15: the VerifGcAt hook repeats the 8-line loop of gc() with a caller-supplied clock; the real gc() is "
-             "cross-checked by clock=real histories"]
+             "C15: xsync.MapOf.LoadOrCompute is ONE atomic get-or-create step (the interleaving machine of LimiterConc.v); "
+             "tested by kind limrace, not proved"]
 
 PROPS["C15"] = dict(
     kinds=[
@@ -682,15 +669,24 @@ PROPS["C15"] = dict(
     rule="limiter: virtual-time arrival histories (8..80 ops) on the real ClientLimiter: addresses from one /24, adjacent /24s, "
          "v4-mapped twins, one /48, adjacent /48s, boundary addresses; rates 1..100000, bursts incl. omitted, 60*rate, 60*rate+1; "
          "time gaps 0, 1 ns, 1/rate s +-1 ns, 59/60/61 s, > 60 s; costs 1,2,3,15,burst,burst+1; collector runs through the gc hook "
-         "(virtual clock) and through the real gc() (clock=real); a few non-monotone histories (differential only). "
+         "(= gcAt, virtual clock) and through the real gc() (clock=real); a few non-monotone histories (differential only). "
          "limdefaults: option structs with omitted/out-of-range fields -> effective options and mask results. "
-         "distinct = distinct case line",
+         "limconfig: router configurations (v4_mask x v6_mask over 0,1,8,16,24,25,31,32,33,-1,48,128 x 0,1,8,24,32,47,48,49,56,64,"
+         "127,128,129,-5; burst omitted or set; global limit on/off; limit <= 0) through initResourceLimiter; clients placed relative "
+         "to BOTH masks (inside / adjacent subnet of their family, differing right at / after the other family's prefix length, "
+         "v4-mapped twins); isolation script + random history. "
+         "limrace: G in 2..32 goroutines released together on a subnet without a bucket (fresh, or just collected), 150..1500 "
+         "rounds per case, virtual time (one instant) and real clock. "
+         "admit: + DoH clients placed relative to both configured masks. distinct = distinct case line",
     assumptions=["client limiter rates are integers (LimiterConfig.Client.Limit is an int)",
                  "burst < 9.2e9 * rate (a new rate.Limiter is full at its first use)",
                  "arrival timestamps are non-decreasing (time.Now() is monotonic) for the window bound"],
     trusted=C15_TRUST,
-    level_note="proof: window bound (with gc under burst <= 60*rate), isolation, defaults and the refusal rule proved for all "
-               "histories; K3 (gc rebirth, burst > 60*rate) refuted with witness and recorded; x/time/rate is modelled as an exact "
-               "integer token bucket and tied by a virtual-time differential (decisions within <= 1e-6 token of the threshold not "
-               "compared); time.Now()-driven paths (resourceLimiter.AllowN, global limit) only e2e for the client limiter at rate 1/s",
+    level_note="proof: window bound for all histories incl. collector runs and all parameters (K3 repaired), isolation, defaults, the "
+               "router's configuration mapping (subnet = address truncated to the configured mask of its family; isolation and "
+               "bound for the composed system) and the refusal rule proved; concurrent first arrivals proved on an interleaving "
+               "machine with an atomic get-or-create (refuted for a split one) and tested on the real code (limrace); x/time/rate "
+               "is modelled as an exact integer token bucket and tied by a virtual-time differential (decisions within <= 1e-6 "
+               "token of the threshold not compared); time.Now()-driven paths (resourceLimiter.AllowN, global limit) only e2e "
+               "for the client limiter at rate 1/s and in limrace clock=real",
 )
